@@ -139,6 +139,10 @@ PATHS = [
     ' / 340011 / 004001 ', '/102002/020003[0]',
     # slices whose bounds are non-negative but whose step runs backwards, and bounds beyond the number of matches
     '/012101[:0:-1]', '/012101[2:0:-1]', '/012101[1:0:-1]', '/012101[:1]', '/012101[0:2]', '/012101[1:2]', '/012101[5:]', '/012101[:9]', '/012101[-2:]', '/012101[:-1]',
+    # slices on attribute steps: a replication has one factor, a value may have several attributes
+    '/102000.031001[0]', '/102000.031001[1]', '/102000.031001[1:]', '/102000.031001[-1]', '/102000.031001[:0]', '/102000.031001[-2]', '/102000.031001[::-1]', '/102000.031001[5:2]',
+    '/012101.A12101[0]', '/012101[0].A12101[1]', '/012101[0].A12101[-1]', '/012101[0].A12101[1:]', '/012101[1].033007[0]', '/012101[1].033007[1]', '/012101[1].033007[-1]',
+    '/012101[1].033007[::-1]', '/012101[1].033007[:0]', '/012101[0].F12101[-2]',
     '/102000/007004[1:0:-1]', '/102000/007004[:0:-1]', '/102000/012101[:1]', '/102002/101002/020004[:0:-1]', '/012101[::-1].A12101', '/012101[:1].A12101',
 ]
 ERROR_PATHS = ['/340011', '/102000', '/001001/004001', '/001001.A01001', '/204004']
